@@ -281,8 +281,13 @@ where
     let all_steps = {
         let mut wrapped = all_steps.peekable();
         // Manually check the first point to make sure we're not calling
-        // zip on an empty iterator.
-        assert_eq!(brute_force_steps.peek(), wrapped.peek());
+        // zip on an empty iterator. If no step has been computed at all
+        // (i.e., if no relevant callback ever arrives), there is nothing
+        // to compare --- and the brute-force search for a first step
+        // would never terminate.
+        if wrapped.peek().is_some() {
+            assert_eq!(brute_force_steps.peek(), wrapped.peek());
+        }
         wrapped.zip(brute_force_steps).map(|(a, bf)| {
             assert_eq!(a, bf);
             a
